@@ -71,3 +71,14 @@ package checker
 //@   assigns *
 //@   requires v != nil && node != nil
 //@   ensures[collections-balanced] len(v.collections) == old(len(v.collections))
+
+// member lookup on a struct type: a field declared directly in the struct shadows a field of the same name promoted
+// from an embedded struct, wherever the embedded struct is declared (Go's selector rule; the VM's FieldByName follows it)
+//@ func checker.fieldType returns t ok
+//@   property C15 C16
+//@   mode panics
+//@   assigns nothing
+//@   loop 0 modifies nothing
+//@   loop 0 invariant[none-direct] i >= 0 && (ntype != nil && kind(ntype) == 25 ==> forall(k, 0, i, fname(ntype, k) != name))
+//@   loop 1 modifies nothing
+//@   ensures[direct-first] ntype != nil && kind(ntype) == 25 ==> forall(k, 0, numfield(ntype), fname(ntype, k) == name && forall(j, 0, k, fname(ntype, j) != name) ==> ok && t == ftype(ntype, k))
